@@ -5,10 +5,11 @@ from .common import MachineryError
 
 
 def table():
-    from . import checks_hexary
+    from . import checks_hexary, checks_misc
 
     t = {}
     t.update(checks_hexary.CHECKS)
+    t.update(checks_misc.CHECKS)
     return t
 
 
